@@ -352,7 +352,7 @@ theorem gcStep_assoc {n : Int} (hn : 0 < n) (acc : Ctx × Option Nat) (k : Nat) 
   · exact h
 
 theorem gc_assoc {n : Int} (hn : 0 < n) (c : Ctx) (a : Option Nat) (h : PA n c) : PA n (collectGarbage c a).1 := by
-  unfold collectGarbage
+  rw [collectGarbage_fst]; unfold gcCells
   generalize (List.range (c.size - 1)) = ks
   have : ∀ (ks : List Nat) (acc : Ctx × Option Nat), PA n acc.1 → PA n (ks.foldl gcStep acc).1 := by
     intro ks
